@@ -134,7 +134,22 @@ def rule_tarjan(P):
     if low is None:
         raise AnalysisError("scc_decomposition.dfs: low-link table not found")
     ups = [n for n in walk_live(loop) if isinstance(n, ast.Assign) and isinstance(n.targets[0], ast.Subscript) and norm(n.targets[0]) == f"{low}[{v}]"]
-    if len(ups) < 2:
+    merged = None
+    if len(ups) == 1 and ups[0] in loop.body:
+        # one shared update after `if <unvisited>: dfs(w) elif w not in <stack>: continue`
+        i = loop.body.index(ups[0])
+        prev = loop.body[i - 1] if i else None
+        if isinstance(prev, ast.If) and len(prev.orelse) == 1 and isinstance(prev.orelse[0], ast.If):
+            e = prev.orelse[0]
+            if not e.orelse and len(e.body) == 1 and isinstance(e.body[0], ast.Continue) and isinstance(e.test, ast.Compare) \
+                    and isinstance(e.test.ops[0], ast.NotIn) and norm(e.test.left) == w and isinstance(e.test.comparators[0], ast.Name) \
+                    and not any(isinstance(x, (ast.Continue, ast.Break, ast.Return)) for b in prev.body for x in ast.walk(b)):
+                merged = prev
+    if len(ups) == 1 and merged is None and ups[0] in loop.body and not any(isinstance(x, ast.Continue) for x in ast.walk(loop)):
+        r.add(dfs, ups[0], False, f"`{first_line(ups[0])}` runs for every successor {w}, also for one whose component has already been emitted (visited, "
+              f"no longer on the stack): its low-link leaks into {v} and merges separate components", construct="dfs: tree-edge / on-stack cases")
+        return r
+    if len(ups) < 2 and merged is None:
         raise AnalysisError("scc_decomposition.dfs: low-link updates not found")
     for n in ups:
         ok = isinstance(n.value, ast.Call) and W.call_name(n.value) == "min" and sorted(norm(a) for a in n.value.args) == sorted([f"{low}[{v}]", f"{low}[{w}]"])
@@ -146,6 +161,9 @@ def rule_tarjan(P):
     tree = [n for n in ups if any(ft.pol and f"{low}.get" in norm(ft.test) and "is None" in norm(ft.test) or
                                   ft.pol and norm(ft.test) == f"{w} not in {low}" for ft in W.guard_facts(n))]
     ok = len(non_tree) == 1 and len(tree) == 1
+    if merged is not None:
+        t = norm(merged.test)
+        ok = (f"{low}.get" in t and "is None" in t) or t == f"{w} not in {low}"
     r.add(dfs, loop, ok, "" if ok else "low-links must be updated for unvisited successors (after the recursive call) and for successors on the stack only",
           construct="dfs: tree-edge / on-stack cases")
     roots = [n for n in dfs.node.body if isinstance(n, ast.If) and W.pos(n) > W.end_pos(loop)]
@@ -161,7 +179,7 @@ def rule_tarjan(P):
         ok = len(ys) == 1 and len(brk) == 1 and isinstance(brk[0].test, ast.Compare) and isinstance(brk[0].test.ops[0], ast.Eq) \
             and v in (norm(brk[0].test.left), norm(brk[0].test.comparators[0]))
         r.add(dfs, ys[0] if ys else roots[0], ok, "" if ok else "the component must be popped from the stack down to v inclusive")
-    r.min_instances = 5
+    r.min_instances = 4
     return r
 
 
